@@ -371,13 +371,13 @@ theorem admit_complete_partial (roots : List Cert) (sigOK : SigOracle) (o : Opts
         have hv' : verify ⟨roots, mkPool rest, sigOK⟩ l = .ok chains := by rw [hpool]; exact hv
         exact validate_of_verify hleaf hv' hT (chainsEquivalent_of (by simp; omega) (Or.inr (by simp)) (by simp))
 
-theorem exAki (roots cs : List Cert) (h : ∀ c ∈ cs, c.aki = none) :
+def exAki (roots cs : List Cert) (h : ∀ c ∈ cs, c.aki = none) :
     ∀ c ∈ cs, (∀ x ∈ roots, c.issuer = x.subject → AkiFinds roots c x) ∧ (∀ x ∈ cs.tail, c.issuer = x.subject → AkiFinds cs.tail c x) := by
   intro c hc
   have := h c hc
   refine ⟨?_, ?_⟩ <;> (intro x _ _ k hk _; rw [this] at hk; cases hk)
 
-theorem exHyps : SideConditions [exR] [exL, exI] ∧ Admissible [exR] exSig [exL, exI] ∧ LeafOK exOpts exL := by
+def exHyps : SideConditions [exR] [exL, exI] ∧ Admissible [exR] exSig [exL, exI] ∧ LeafOK exOpts exL := by
   refine ⟨⟨by decide, exAki _ _ (by decide), by decide, (by intro l rest h _; cases h; decide), by unfold Coherent; decide⟩, ?_,
     (leafFilters_iff _ _).1 (by decide)⟩
   exact .belowPool exR (by simp) (by decide) ⟨⟨rfl, by decide⟩, ⟨rfl, by decide⟩, trivial⟩ (by intro x hx; simp at hx; subst hx; exact ⟨rfl, rfl⟩)
